@@ -72,10 +72,14 @@ impl<A: AcceptableMasterList, C: Clock, F: Filter, R: Rng, S: PtpInstanceStateMu
                 *time_properties_ds = announce.time_properties();
 
                 if let Some(tlv) = path_trace_tlv {
-                    // Cannot panic as `list` is large enough to contain up to a whole message
+                    // A received frame can be larger than MAX_DATA_LEN, so the path
+                    // may have more entries than `list` can hold: keep what fits
+                    // (such a path is not forwarded, see send_announce).
+                    let capacity = path_trace_ds.list.capacity();
                     path_trace_ds.list = tlv
                         .value
                         .chunks_exact(8)
+                        .take(capacity)
                         .map(|ci| ClockIdentity(<[u8; 8]>::try_from(ci).unwrap()))
                         .collect();
                 }
